@@ -51,9 +51,21 @@ def _unreachable_summary(eng, args, kw, env, pc, node):
     return u
 
 
+def _literal_value_or_raise(eng, args, kw, env, pc, node):
+    """core.literal_value(e): a value (uninterpreted function of e), or ValueError when the expression is not a known constant (uninterpreted
+    predicate of e) - its only exception, by the contract proved for C04 / C15"""
+    import z3
+    from pyvc.values import OBJ, B
+    known = eng.uf("literal_value_known", [OBJ], B)(args[0].t)
+    eng.may_raise("ValueError", z3.Not(known), pc, getattr(node, "lineno", 0), "unknown-constant")
+    return eng.uf_call("core.literal_value", [args[0]], "obj")
+
+
 DELETED = (
     "value[1] is None and ("
     "(not isinstance(node, (ast.If, ast.While)) and exists(lambda k: exists(lambda j: 0 <= j and j < k and k < len(node.body) and core.is_blocking(node.body[j]) and value[0] == node.body[k])))"
+    " or (isinstance(node, (ast.If, ast.While)) and exists(lambda k: exists(lambda j: 0 <= j and j < k and k < len(node.body) and core.is_blocking(node.body[j]) and value[0] == node.body[k])))"
+    " or (isinstance(node, (ast.If, ast.While)) and exists(lambda k: exists(lambda j: 0 <= j and j < k and k < len(node.orelse) and core.is_blocking(node.orelse[j]) and value[0] == node.orelse[k])))"
     " or (isinstance(node, ast.While) and not core.literal_value(node.test) and len(node.orelse) == 0 and value[0] == node)"
     " or (isinstance(node, ast.If) and core.literal_value(node.test) and len(node.body) > 0 and exists(lambda k: 0 <= k and k < len(node.orelse) and value[0] == node.orelse[k]))"
     " or (isinstance(node, ast.If) and not core.literal_value(node.test) and len(node.orelse) > 0 and exists(lambda k: 0 <= k and k < len(node.body) and value[0] == node.body[k]))"
@@ -63,9 +75,10 @@ delete_unreachable = Unit(
     "fixes", "delete_unreachable_code",
     params={"source": "str"},
     yield_ensures=[("deleted-only-if-unreachable-by-the-analyses", DELETED)],
-    loops={0: {"inv": ["True"]}, 1: {"inv": ["True"]}, 2: {"inv": ["True"]}, 3: {"inv": ["True"]}},
-    calls={"core.is_blocking": ("uf", "bool"), "core.literal_value": ("uf", "obj"), "core.parse": ("uf", "obj"), "_iter_unreachable_nodes": _unreachable_summary},
+    loops={k: {"inv": ["True"]} for k in range(6)},
+    calls={"core.is_blocking": ("uf", "bool"), "core.literal_value": _literal_value_or_raise, "core.parse": ("uf", "obj"), "_iter_unreachable_nodes": _unreachable_summary},
     attrs={"body": ("seq", "obj"), "orelse": ("seq", "obj"), "test": "obj"}, lenient=True, props=("C16",), covers=False, fall_is_return=True,
+    exc_mode={"ValueError": "edge"},
 )
 
 UNITS.append(delete_unreachable)
